@@ -182,7 +182,9 @@ impl<'r: 'c, 'c: 'r> Iterator for Iter<'r, 'c> {
     }
 
     fn size_hint(&self) -> (usize, Option<usize>) {
-        let n = self.read_length - (usize::from(self.last_read_position) - 1);
+        let n = self
+            .read_length
+            .saturating_sub(usize::from(self.last_read_position) - 1);
 
         match &self.state {
             State::Next => (n, Some(n)),
